@@ -41,7 +41,7 @@ import time
 import traceback
 from typing import Any, Dict, List, Optional, Tuple
 
-from harness.lib import coqbuild, gcs3, gcsim
+from harness.lib import coqbuild, gcs3, gcsim, procconf
 from harness.lib.coqio import Nat, to_coq
 
 LEVEL = "proof"
@@ -102,8 +102,11 @@ def gen_ops(rng: random.Random, n: int, final_grace: int) -> List[Dict[str, Any]
             ops.append({"op": "expire", "which": rng.randrange(8)})
         elif r < 0.66:
             ops.append({"op": "delete_snapshot", "which": rng.randrange(8)})
-        elif r < 0.76:
+        elif r < 0.73:
             ops.append({"op": "open_tx"})
+        elif r < 0.76:
+            # the application reconfigures the process mid-history (log levels, environment): harness/lib/procconf.py
+            ops.append({"op": "config", "events": procconf.random_events(rng, rng.choice([1, 1, 2]))})
         elif r < 0.80:
             ops.append({"op": rng.choice(["commit_tx", "rollback_tx"])})
         elif r < 0.88:
@@ -155,8 +158,14 @@ def _spell(path: str, spell: int) -> str:
 
 def exec_history(case: Dict[str, Any]) -> Dict[str, Any]:
     """Run one history against the real library. Pure function of `case` (runs in a worker process)."""
-    import logging
-    logging.disable(logging.CRITICAL)
+    # the process-wide configuration the history runs under (log levels, environment) is part of the case; the library's log
+    # records are formatted as in production and written to a sink (NOT suppressed by logging.disable: that is itself a
+    # configuration, and one under which no level-guarded statement of the library ever runs)
+    with procconf.applied(case.get("config") or []):
+        return _exec_history(case)
+
+
+def _exec_history(case: Dict[str, Any]) -> Dict[str, Any]:
     base = case["base"]
     shutil.rmtree(base, ignore_errors=True)
     os.makedirs(base)
@@ -258,6 +267,9 @@ def exec_history(case: Dict[str, Any]) -> Dict[str, Any]:
                     if open_txs:
                         tx, _w = open_txs.pop(0)
                         tx.commit() if kind == "commit_tx" else tx.rollback()
+                elif kind == "config":
+                    for ev in op["events"]:
+                        procconf.apply_event(ev)
                 elif kind == "orphans":
                     for j in range(op["n"]):
                         name = f"orphan_{opi}_{j}"
@@ -332,9 +344,12 @@ def do_collect(t: Any, reader: gcsim.IndepReader, root: str, tp_seen: str, overr
     live = reader.live_protected(now, TIMEOUT_MS)
     snaps = [s.get("manifest_list") or "" for s in reader.snapshots()]
     store = gcsim.store_term(root)
+    conf_seen = procconf.observe()           # what the process configuration amounts to for the collector's logger, right now
+    tap = _LogTap()
     if s3spec is None:
         before = gcsim.list_tree(root)
-        real = gcsim.run_collect(t, grace, now, None, override)
+        with tap:
+            real = gcsim.run_collect(t, grace, now, None, override)
         after = gcsim.list_tree(root)
         problems_after = None
     else:
@@ -347,7 +362,8 @@ def do_collect(t: Any, reader: gcsim.IndepReader, root: str, tp_seen: str, overr
         before = gcs3.tree_of(fake, pre)
         ts = gcs3.open_s3_table(env_prefix, s3_tp, fake)
         tp_seen = s3_tp
-        real = gcsim.run_collect(ts, grace, now, None, None)
+        with tap:
+            real = gcsim.run_collect(ts, grace, now, None, None)
         after = gcs3.tree_of(fake, pre)
         problems_after = [f"object {k} of a retained snapshot is gone" for k in sorted(reach) if k not in after]
     deleted = sorted(set(before) - set(after))
@@ -373,8 +389,31 @@ def do_collect(t: Any, reader: gcsim.IndepReader, root: str, tp_seen: str, overr
     return {"violations": viol, "deleted": deleted_files,
             "expr": f"let st := {store} in ({gcsim.gc_expr(tp_seen, grace, int(now * 1000), TIMEOUT_MS, [], snaps, 'st')}, hinvb {to_coq(snaps)} st)",
             "real": {k: real[k] for k in ("raised", "exc_type", "exc", "phase", "trace", "keep_sets", "unknown")},
-            "before": before, "after": after, "grace": grace, "tp": tp_seen,
+            "before": before, "after": after, "grace": grace, "tp": tp_seen, "conf": conf_seen, "log_sites": sorted(tap.sites),
             "n_reach": len(reach), "n_live": len(live | set(registered)), "n_old": len(old_keys), "n_young": len(young_keys)}
+
+
+class _LogTap:
+    """Records which of the collector's logging statements actually emitted a record: (function name, level). A handler does not
+    change which levels are enabled, so the collection runs exactly as the configuration of the case has it."""
+
+    def __init__(self) -> None:
+        import logging
+        tap = self
+
+        class _H(logging.Handler):
+            def emit(self, record: Any) -> None:
+                tap.sites.add((record.funcName, int(record.levelno)))
+        self.sites: set = set()
+        self._h = _H(level=0)
+        self._lg = logging.getLogger("datashard.garbage_collector")
+
+    def __enter__(self) -> "_LogTap":
+        self._lg.addHandler(self._h)
+        return self
+
+    def __exit__(self, *_a: Any) -> None:
+        self._lg.removeHandler(self._h)
 
 
 # ------------------------------------------------------------------------------------------ shrinking
@@ -414,8 +453,9 @@ def make_cases(ctx) -> List[Dict[str, Any]]:
                 ops = gen_ops(r, length, g)
                 if rep == 0 and sp.startswith("s3:"):
                     ops.insert(len(ops) - 1, {"op": "open_many", "n": 9})
+                cname, cevents = procconf.draw(r, n)
                 cases.append({"spelling": sp, "seed": seed, "ops": ops, "base": os.path.join(ctx.scratch, f"h{n}"),
-                              "schemaless": rep % 2 == 1})
+                              "schemaless": rep % 2 == 1, "config": cevents, "config_name": cname})
                 n += 1
     return cases
 
@@ -444,6 +484,7 @@ def run_histories(ctx) -> None:
     agg = {"histories": len(cases), "ops": 0, "collects": 0, "deleted": 0, "open_tx_at_collect": 0, "op_errors": 0, "collects_with_deletions": 0}
     exprs, recs = [], []
     seen_keys = set()
+    conf_dist: Dict[str, Dict[str, int]] = {"histories": {}, "collections_by_effective_level": {}, "log_statements_that_emitted": {}}
     for case, res in zip(cases, results):
         if "harness_error" in res:
             ctx.proof_problems.append("history harness raised: " + res["harness_error"][-600:])
@@ -453,18 +494,26 @@ def run_histories(ctx) -> None:
         agg["op_errors"] += len(res["op_errors"])
         for v in res["violations"]:
             key = v["key"]
-            payload_case = {"spelling": case["spelling"], "seed": case["seed"], "ops": case["ops"], "schemaless": bool(case.get("schemaless"))}
+            payload_case = {"spelling": case["spelling"], "seed": case["seed"], "ops": case["ops"], "schemaless": bool(case.get("schemaless")),
+                            "config": case.get("config") or [], "config_name": case.get("config_name", "default")}
             if key not in seen_keys and not key.startswith("hang:"):
                 seen_keys.add(key)
                 small = shrink(case, key)
                 payload_case["ops"] = small["ops"]
-            ctx.violation(key, v["what"], payload_case)
+            ctx.violation(key, v["what"] + f" [process configuration {payload_case['config_name']!r}: {payload_case['config']}]", payload_case)
+        conf_dist["histories"][case.get("config_name", "default")] = conf_dist["histories"].get(case.get("config_name", "default"), 0) + 1
         for c in res["collects"]:
-            ctx.count(1, ("collect", case["spelling"], c["grace"], len(c["deleted"]), c["n_reach"], c["n_live"]))
+            ctx.count(1, ("collect", case["spelling"], c["grace"], len(c["deleted"]), c["n_reach"], c["n_live"], c["conf"]["effective"]))
+            lvl = str(c["conf"]["effective"]) + ("" if any(c["conf"]["enabled"]) else "/all-disabled")
+            conf_dist["collections_by_effective_level"][lvl] = conf_dist["collections_by_effective_level"].get(lvl, 0) + 1
+            for fn_lv in c["log_sites"]:
+                k = f"{fn_lv[0]}@{fn_lv[1]}"
+                conf_dist["log_statements_that_emitted"][k] = conf_dist["log_statements_that_emitted"].get(k, 0) + 1
             agg["collects_with_deletions"] += 1 if c["deleted"] else 0
             exprs.append(c["expr"])
             recs.append((case, c))
     ctx.stats["histories"] = agg
+    ctx.stats["process_configurations"] = {k: dict(sorted(v.items())) for k, v in conf_dist.items()}
     if recs:
         case, c = recs[0]
         ctx.sample({"history": {"spelling": case["spelling"], "ops": [o["op"] for o in case["ops"]], "final_collect": {"grace": c["grace"], "deleted": c["deleted"], "reachable": c["n_reach"], "protected_live": c["n_live"]}}})
@@ -682,7 +731,7 @@ def replay(ctx, payload) -> int:
         print("replay: payload names a broken proof / correspondence; re-run ./bin/check C05 thorough")
         return 2
     res = exec_history({"spelling": case["spelling"], "seed": case.get("seed"), "ops": case["ops"], "schemaless": bool(case.get("schemaless")),
-                        "base": os.path.join(ctx.scratch, "replay")})
+                        "config": case.get("config") or [], "base": os.path.join(ctx.scratch, "replay")})
     for v in res["violations"]:
         print("replay: STILL FAILS", v["key"], "-", v["what"])
     if not res["violations"]:
